@@ -561,6 +561,8 @@ class _Chain(PointsSequence):
         _check_take(len(self), indices)
         n = len(self.sequence1)
         mask = numpy.less(indices, n)
+        if (mask[1:] & ~mask[:-1]).any(): # an item of the first sequence follows one of the second: keep the requested order
+            return super().take(indices)
         return self.sequence1.take(numpy.compress(mask, indices)).chain(self.sequence2.take(numpy.compress(~mask, indices) - n))
 
     def compress(self, mask: numpy.ndarray) -> PointsSequence:
